@@ -2,21 +2,35 @@
     DESIGN 5.4, over the family-3 runner so that the theorem speaks about exactly what the
     correspondence executes. *)
 From TD Require Import Base.Prelude Base.Codec Model.Iter Model.Flatten Model.View Model.IterRun
-  Spec.Ideal Proofs.ListLemmas Proofs.RowsSim Proofs.ColSim.
+  Spec.Ideal Proofs.ListLemmas Proofs.RowsSim Proofs.ColSim Proofs.FlatSim.
 
 (** simulation between a cursor state and an ideal sequence *)
 Definition st_sim (s : istate) (q : iseq) : Prop :=
   match s, q with
   | SRows it, QRows l => rows_sim it l
   | SCol it, QCells l => col_sim it l
+  | SCells it, QCells l => flat_sim it l
   | _, _ => False
   end.
 
+(** cell iterators have no [Index]; the call alphabet excludes it for them *)
+Definition is_cells (s : istate) : bool := match s with SCells _ => true | _ => false end.
+Definition is_index (c : icall) : bool := match c with IIndex _ => true | _ => false end.
+Definition call_ok (s : istate) (c : icall) : Prop := is_cells s = true -> is_index c = false.
+
+Lemma icall_step_kind dbg s c y s' : icall_step dbg s c = Ok (y, s') -> is_cells s' = is_cells s.
+Proof.
+  destruct s as [it|it|it], c; cbn [icall_step]; unfold lift_rows, lift_col, lift_cells; intros H;
+    repeat match type of H with
+    | bind ?r _ = _ => destruct r as [[? ?]| |]; cbn [bind] in H; try discriminate
+    end; inversion H; reflexivity.
+Qed.
+
 Lemma step_sim dbg s q c :
-  st_sim s q ->
+  st_sim s q -> call_ok s c ->
   exists y s' q', icall_step dbg s c = Ok (y, s') /\ ideal_call q c = (y, q') /\ st_sim s' q'.
 Proof.
-  destruct s as [it|it|it], q as [l|l]; cbn [st_sim]; intros Hs; try contradiction.
+  destruct s as [it|it|it], q as [l|l]; cbn [st_sim]; intros Hs Hok; try contradiction.
   - (* rows *)
     destruct c as [| |n|n| |i]; cbn [icall_step ideal_call].
     + destruct (rows_sim_next it l Hs) as [it' [E Hs']]. rewrite E. cbn [lift_rows bind fst snd].
@@ -41,21 +55,36 @@ Proof.
       destruct (i_nth_back n l) as [x l']. do 3 eexists. split; [reflexivity|]. split; [reflexivity|exact Hs'].
     + rewrite (col_sim_len it l Hs). do 3 eexists. split; [reflexivity|]. split; [reflexivity|exact Hs].
     + rewrite (col_index_ok it l i Hs). do 3 eexists. split; [reflexivity|]. split; [reflexivity|exact Hs].
+  - (* cells *)
+    destruct c as [| |n|n| |i]; cbn [icall_step ideal_call].
+    + destruct (flat_sim_next it l Hs) as [it' [E Hs']]. rewrite E. cbn [lift_cells bind fst snd].
+      destruct (i_next l) as [x l']. do 3 eexists. split; [reflexivity|]. split; [reflexivity|exact Hs'].
+    + destruct (flat_sim_next_back it l Hs) as [it' [E Hs']]. rewrite E. cbn [lift_cells bind fst snd].
+      destruct (i_next_back l) as [x l']. do 3 eexists. split; [reflexivity|]. split; [reflexivity|exact Hs'].
+    + destruct (flat_sim_nth dbg it l n Hs) as [it' [E Hs']]. rewrite E. cbn [lift_cells bind fst snd].
+      destruct (i_nth n l) as [x l']. do 3 eexists. split; [reflexivity|]. split; [reflexivity|exact Hs'].
+    + destruct (flat_sim_nth_back dbg it l n Hs) as [it' [E Hs']]. rewrite E. cbn [lift_cells bind fst snd].
+      destruct (i_nth_back n l) as [x l']. do 3 eexists. split; [reflexivity|]. split; [reflexivity|exact Hs'].
+    + rewrite (flat_sim_len it l Hs). do 3 eexists. split; [reflexivity|]. split; [reflexivity|exact Hs].
+    + specialize (Hok eq_refl). discriminate.
 Qed.
 
 (** every finite call history, of any length: same results, same writes *)
 Theorem history_sim dbg mutable : forall calls k s q b,
-  st_sim s q ->
+  st_sim s q -> Forall (call_ok s) calls ->
   exists o s' q' b',
     icalls dbg mutable k s calls b = Ok (o, s', b') /\
     ideal_calls mutable k q calls b = (o, q', b') /\ st_sim s' q'.
 Proof.
-  induction calls as [|c calls IH]; intros k s q b Hs.
+  induction calls as [|c calls IH]; intros k s q b Hs Hok.
   - do 4 eexists. split; [reflexivity|]. split; [reflexivity|exact Hs].
-  - cbn [icalls ideal_calls].
-    destruct (step_sim dbg s q c Hs) as [y [s1 [q1 [E1 [E2 Hs1]]]]].
+  - cbn [icalls ideal_calls]. inversion Hok as [|c' calls' Hc Hrest]; subst.
+    destruct (step_sim dbg s q c Hs Hc) as [y [s1 [q1 [E1 [E2 Hs1]]]]].
     rewrite E1, E2. cbn [bind].
-    destruct (IH (S k) s1 q1 (if mutable then apply_mark k y b else b) Hs1)
+    assert (Hok1 : Forall (call_ok s1) calls).
+    { eapply Forall_impl; [|exact Hrest]. intros a Ha. unfold call_ok in *.
+      rewrite (icall_step_kind dbg s c y s1 E1). exact Ha. }
+    destruct (IH (S k) s1 q1 (if mutable then apply_mark k y b else b) Hs1 Hok1)
       as [o [s' [q' [b' [E3 [E4 Hs']]]]]].
     rewrite E3, E4. cbn [bind]. do 4 eexists. split; [reflexivity|]. split; [reflexivity|exact Hs'].
 Qed.
@@ -77,4 +106,15 @@ Proof.
     + destruct (col_sim_next_back it l Hs) as [it' [E _]]. rewrite E. reflexivity.
     + rewrite (col_fold_ok it l Hs). reflexivity.
     + reflexivity.
+  - destruct t; cbn [iterm_step ideal_term].
+    + rewrite (flat_sim_len it l Hs). reflexivity.
+    + destruct (flat_sim_next_back it l Hs) as [it' [E _]]. rewrite E. reflexivity.
+    + rewrite (flat_sim_fold it l Hs). reflexivity.
+    + rewrite (flat_sim_rfold it l Hs). reflexivity.
+    + reflexivity.
 Qed.
+
+Lemma call_ok_not_cells s c : is_cells s = false -> call_ok s c.
+Proof. unfold call_ok. intros H H1. congruence. Qed.
+Lemma calls_ok_not_cells s calls : is_cells s = false -> Forall (call_ok s) calls.
+Proof. intros H. apply Forall_forall. intros c _. apply call_ok_not_cells. exact H. Qed.
